@@ -36,6 +36,14 @@ def race_scenarios(rng, tier):
         for at in (1, 2):
             out.append({"components": [dev("x"), dev("a", cb={"kind": "period", "p": P})], "n_ticks": 5, "start_delays": {"": late}, "t0": (0 if at == 1 else 5_000_000),
                         "stims": [{"step": 1 + at, "comp": "x"}, {"real": P + P // 2, "comp": "x"}, {"real": 2 * P + P // 2, "comp": "x"}]})
+    # a wakeup for exactly simulation time 0 (falsy!) held next to later ones: an immediate callback asked at the
+    # initial tick, or an interrupt raised before a late scheduler is up; the other device's callbacks END, so that
+    # a starved wakeup would surface as a tick in the past
+    for order in (0, 1):
+        comps = [dev("z", cb={"kind": "list", "delays": [0, None, None]}), dev("a", cb={"kind": "list", "delays": [P, P, None]})]
+        out.append({"components": comps[::-1] if order else comps, "n_ticks": 5, "t0": 0})
+        comps = [dev("x"), dev("a", cb={"kind": "list", "delays": [P, P, None]})]
+        out.append({"components": comps[::-1] if order else comps, "n_ticks": 5, "t0": 0, "start_delays": {"": 3}, "stims": [{"step": 2, "comp": "x"}]})
     return out
 
 
